@@ -477,9 +477,15 @@ func constNud(p *parser, t *token) *token {
 		t.Append(plural(symAtPos(t.Pos, ",")))
 		t.Append(plural(symAtPos(t.Pos, ",")))
 		p.Advance("(")
-		var prev, prevType *token
-		for p.Token.Symbol != ")" {
+		var prevType *token
+		var prev []*token
+		// iota is the index of the ConstSpec in the group, not of the constant: in
+		// "A, B = iota, iota * 10" both see 0, and a following "C, D" repeats that
+		// whole expression list with iota == 1
+		for spec := 0; p.Token.Symbol != ")"; {
 			if decl := getDecl(p, kind); decl != nil {
+				n := fmt.Sprint(spec)
+				spec++
 				for _, tt := range plural(decl.Tokens[0]).Tokens {
 					if len(decl.Tokens) > 1 {
 						prevType = nil
@@ -492,15 +498,16 @@ func constNud(p *parser, t *token) *token {
 					t.Tokens[0].Append(tt)
 				}
 				if len(decl.Tokens) > 1 {
+					prev = nil
 					for _, tt := range plural(decl.Tokens[1]).Tokens {
-						prev = tt.Copy()
-						tt.Replace("iota", "(int)", fmt.Sprint(len(t.Tokens[1].Tokens)))
+						prev = append(prev, tt.Copy())
+						tt.Replace("iota", "(int)", n)
 						t.Tokens[1].Append(tt)
 					}
 				} else {
-					for range plural(decl.Tokens[0]).Tokens {
-						tt := prev.Copy()
-						tt.Replace("iota", "(int)", fmt.Sprint(len(t.Tokens[1].Tokens)))
+					for i := range plural(decl.Tokens[0]).Tokens {
+						tt := prev[i].Copy()
+						tt.Replace("iota", "(int)", n)
 						t.Tokens[1].Append(tt)
 					}
 				}
